@@ -162,6 +162,35 @@ theorem cts_cbcDec_width_independent (C : Cipher) (w₁ w₂ : Nat) (iv : Bytes)
   unfold Cts.cbcDec
   rw [blocksCtx_eq_fold w₁ _ _ (fun s ch _ => hpar s ch), blocksCtx_eq_fold w₂ _ _ (fun s ch _ => hpar s ch)]
 
+/-- **the twelve one-shot CTS calls are independent of the backend's width**, on every buffer (no hypothesis on the
+    cipher, the length or the contents — in particular on long messages whose main part spans several parallel
+    chunks plus a tail): the width enters only through `ecb_enc`/`ecb_dec`/`cbc_dec`. -/
+theorem cts_calls_width_independent (C : Cipher) (w₁ w₂ : Nat) (iv buf : Bytes) :
+    Cts.cbcCs1Enc C w₁ iv buf = Cts.cbcCs1Enc C w₂ iv buf ∧ Cts.cbcCs1Dec C w₁ iv buf = Cts.cbcCs1Dec C w₂ iv buf ∧
+    Cts.cbcCs2Enc C w₁ iv buf = Cts.cbcCs2Enc C w₂ iv buf ∧ Cts.cbcCs2Dec C w₁ iv buf = Cts.cbcCs2Dec C w₂ iv buf ∧
+    Cts.cbcCs3Enc false C w₁ iv buf = Cts.cbcCs3Enc false C w₂ iv buf ∧
+    Cts.cbcCs3Dec false C w₁ iv buf = Cts.cbcCs3Dec false C w₂ iv buf ∧
+    Cts.ecbCs1Enc C w₁ buf = Cts.ecbCs1Enc C w₂ buf ∧ Cts.ecbCs1Dec C w₁ buf = Cts.ecbCs1Dec C w₂ buf ∧
+    Cts.ecbCs2Enc C w₁ buf = Cts.ecbCs2Enc C w₂ buf ∧ Cts.ecbCs2Dec C w₁ buf = Cts.ecbCs2Dec C w₂ buf ∧
+    Cts.ecbCs3Enc false C w₁ buf = Cts.ecbCs3Enc false C w₂ buf ∧
+    Cts.ecbCs3Dec false C w₁ buf = Cts.ecbCs3Dec false C w₂ buf := by
+  have hd : ∀ iv' blocks, Cts.cbcDec C w₁ iv' blocks = Cts.cbcDec C w₂ iv' blocks :=
+    fun iv' blocks => cts_cbcDec_width_independent C w₁ w₂ iv' blocks
+  have he : ∀ blocks, Cts.ecbEnc C w₁ blocks = Cts.ecbEnc C w₂ blocks :=
+    fun blocks => (cts_ecb_width_independent C w₁ w₂ blocks).1
+  have hdd : ∀ blocks, Cts.ecbDec C w₁ blocks = Cts.ecbDec C w₂ blocks :=
+    fun blocks => (cts_ecb_width_independent C w₁ w₂ blocks).2
+  refine ⟨rfl, ?_, rfl, ?_, rfl, ?_, ?_, ?_, ?_, ?_, ?_, ?_⟩
+  · simp only [Cts.cbcCs1Dec, hd]
+  · simp only [Cts.cbcCs2Dec, hd]
+  · simp only [Cts.cbcCs3Dec, hd]
+  · simp only [Cts.ecbCs1Enc, he]
+  · simp only [Cts.ecbCs1Dec, hdd]
+  · simp only [Cts.ecbCs2Enc, he]
+  · simp only [Cts.ecbCs2Dec, hdd]
+  · simp only [Cts.ecbCs3Enc, he]
+  · simp only [Cts.ecbCs3Dec, hdd]
+
 /-! ### non-vacuity: 5 blocks as (2 + 3) under w = 2 versus (1 + 4) under w = 3 feed the same blocks -/
 example : ([Call.many [[1], [2]], .many [[3], [4], [5]]].map Call.blocks).flatten
     = ([Call.one [1], .many [[2], [3], [4], [5]]].map Call.blocks).flatten := by decide
